@@ -116,9 +116,25 @@ def run_sched_case(rng, res, idx, maxlen):
     res.sample(dict(subset=subset, init=init, ops=desc[:10]))
 
     # construction must refuse a parameter that is already callable, and only then
+    import functools
+
+    class _CallableObj:
+        def __init__(self, v):
+            self.v = v
+
+        def __call__(self, s):
+            return self.v
+
+        def method(self, s):
+            return self.v
+
+    def _plain(s, v=1):
+        return v
     for nm in PARAMS:
         cfg = dict(init)
-        cfg[nm] = (lambda s: 1) if nm in PARAMS[:2] else (lambda s: 0.5)
+        v_ = 1 if nm in PARAMS[:2] else 0.5
+        # "already a function": any callable - lambda, partial, callable instance, bound method
+        cfg[nm] = rng.choice([(lambda s: v_), functools.partial(_plain, v=v_), _CallableObj(v_), _CallableObj(v_).method])
         with warnings.catch_warnings():
             warnings.simplefilter('ignore')
             q = BaseKFACPreconditioner({}, assignment=None, tdc=TorchDistributedCommunicator(), **cfg)
